@@ -171,6 +171,30 @@ impl AssemblyCode {
         size
     }
 
+    /// Verification hook H1: read-only view of the lines (kind, mnemonic, operand, declared
+    /// size, cycles, protection) exactly as size_bytes(), optimize() and check_branches() see them.
+    #[cfg(cc6502_verif)]
+    pub fn verif_lines(&self) -> Vec<(&'static str, String, String, u32, u32, Option<u32>, bool)> {
+        self.code
+            .iter()
+            .map(|l| match l {
+                AsmLine::Label(s) => ("label", String::new(), s.clone(), 0, 0, None, false),
+                AsmLine::Instruction(i) => (
+                    "instr",
+                    i.mnemonic.to_string(),
+                    i.dasm_operand.clone(),
+                    i.nb_bytes,
+                    i.cycles,
+                    i.cycles_alt,
+                    i.protected,
+                ),
+                AsmLine::Inline(s, n) => ("inline", String::new(), s.clone(), *n, 0, None, false),
+                AsmLine::Comment(s) => ("comment", String::new(), s.clone(), 0, 0, None, false),
+                AsmLine::Dummy => ("dummy", String::new(), String::new(), 0, 0, None, false),
+            })
+            .collect()
+    }
+
     pub fn append_asm(&mut self, inst: AsmInstruction) {
         self.code.push(AsmLine::Instruction(inst));
     }
